@@ -473,6 +473,12 @@ func propagateTaint(root *core.Func, tainted map[*types.Var]string, isSource fun
 	return grew
 }
 
+// field-level taint of parameter objects (a small struct passed by value and built as a literal at the call)
+var (
+	fieldSensitive = map[*types.Var]bool{}
+	fieldTaint     = map[*types.Var]map[string]string{}
+)
+
 // taintOf: does e mention a tainted variable or a single-valued source call?
 func taintOf(info *types.Info, e ast.Node, tainted map[*types.Var]string, isSource func(info *types.Info, e ast.Expr) (idx int, ok bool)) string {
 	why := ""
@@ -480,6 +486,15 @@ func taintOf(info *types.Info, e ast.Node, tainted map[*types.Var]string, isSour
 		return ""
 	}
 	ast.Inspect(e, func(n ast.Node) bool {
+		// a parameter object whose fields were bound one by one at the call: only the field that received free text is tainted
+		if sel, ok := n.(*ast.SelectorExpr); ok {
+			if v := core.VarOf(info, sel.X); v != nil && fieldSensitive[v] {
+				if w := fieldTaint[v][sel.Sel.Name]; w != "" {
+					why = w
+				}
+				return false
+			}
+		}
 		if id, ok := n.(*ast.Ident); ok {
 			if v, ok := info.ObjectOf(id).(*types.Var); ok {
 				if w, t := tainted[v]; t {
@@ -539,6 +554,34 @@ func t3Report(p *core.Program, r *core.Report, sites []templateSite, rels ...str
 			for _, fld := range callee.Type.Params.List {
 				for _, nm := range fld.Names {
 					if i < len(cs.Call.Args) {
+						// a struct literal as the argument: its fields are bound one by one
+						if cl, isLit := ast.Unparen(cs.Call.Args[i]).(*ast.CompositeLit); isLit {
+							if st, _ := cs.In.Info().TypeOf(cl).Underlying().(*types.Struct); st != nil {
+								if v, _ := callee.Info().ObjectOf(nm).(*types.Var); v != nil {
+									if !fieldSensitive[v] {
+										fieldSensitive[v] = true
+										fieldTaint[v] = map[string]string{}
+									}
+									for k, el := range cl.Elts {
+										name, val := "", el
+										if kv, isKV := el.(*ast.KeyValueExpr); isKV {
+											if id, isID := kv.Key.(*ast.Ident); isID {
+												name = id.Name
+											}
+											val = kv.Value
+										} else if k < st.NumFields() {
+											name = st.Field(k).Name()
+										}
+										if w := taintOf(cs.In.Info(), val, tainted, docOrTagSource); w != "" && name != "" && fieldTaint[v][name] == "" {
+											fieldTaint[v][name] = w
+											grew = true
+										}
+									}
+								}
+								i++
+								continue
+							}
+						}
 						if w := taintOf(cs.In.Info(), cs.Call.Args[i], tainted, docOrTagSource); w != "" {
 							if v, _ := callee.Info().ObjectOf(nm).(*types.Var); v != nil {
 								if _, ok := tainted[v]; !ok {
